@@ -287,6 +287,7 @@ func specLE32(b []byte, o int) uint32 {
 //@   safety C03
 
 func typeIs[T any](x any, _ T) bool { return true }
+func ifaceIs(x any, p any) bool     { return true }
 
 //@ writers{C13} Association.sendZeroChecksum : Association.setSendZeroChecksum, Association.handleInit, Association.handleInitAck
 //@ writers{C13} Association.recvZeroChecksum : createAssociationFromConfigWithTsn
